@@ -44,6 +44,8 @@ type Oracles struct {
 	WalBound    bool // C13: live frames bounded after each successful sync
 	IdleQuiet   bool // C13: idle syncs stop producing files
 	StrictError bool // any litestream op error is reported (harness visibility)
+	TraceCk     bool // record checkpointIfNeeded inputs/observed attempts per sync (C13 correspondence)
+	TraceVerify bool // record verify inputs/decision before each sync (C04 correspondence)
 	// Classify maps a failure to a signature refinement (known findings). Optional.
 	Classify func(h History, at int, f *Fail)
 }
@@ -53,6 +55,8 @@ type RunStats struct {
 	Acks, Syncs, SnapshotSyncs, Checkpoints, Errors int
 	Kinds                                            map[string]int
 	ErrKinds                                         []string
+	CkObs                                            []CkObs
+	VerifyObs                                        []VerifyObs
 	Outcomes                                         []string
 }
 
@@ -106,8 +110,25 @@ func Run(h History, or Oracles) (fails []Fail, st RunStats, err error) {
 			continue
 		}
 		e.Logs.take()
+		var ck *CkObs
+		if or.TraceCk && op.K == "sync" && e.LS != nil && e.Reader == nil && h.Cfg.MaxSyncWALBytes == 0 && h.Cfg.CheckpointInterval == 0 && e.LS.SQLDB() != nil {
+			ck = e.ckBefore()
+		}
+		if or.TraceVerify && (op.K == "sync" || op.K == "syncwait") && e.LS != nil && e.LS.SQLDB() != nil {
+			if vo := e.verifyObs(); vo != nil {
+				st.VerifyObs = append(st.VerifyObs, *vo)
+			}
+		}
 		out, ack := e.Exec(op)
 		logs := e.Logs.take()
+		if ck != nil && out == "ok" {
+			for _, l := range logs {
+				if strings.HasPrefix(l, "checkpoint mode=") {
+					ck.Observed = append(ck.Observed, strings.TrimPrefix(strings.Fields(l)[1], "mode="))
+				}
+			}
+			st.CkObs = append(st.CkObs, *ck)
+		}
 		for _, l := range logs {
 			if strings.HasPrefix(l, "checkpoint") {
 				st.Checkpoints++
@@ -650,3 +671,53 @@ func GenC14(r *hx.Rand, thorough bool) History {
 	h.Ops = ops
 	return h
 }
+
+// CkObs is one observation of checkpointIfNeeded: its inputs reconstructed
+// independently of litestream (WAL scan, sync state before the call) and the
+// checkpoint modes litestream actually executed.
+type CkObs struct {
+	Line     string   // driver line
+	Observed []string // modes executed, in order
+}
+
+func b2i(b bool) int {
+	if b {
+		return 1
+	}
+	return 0
+}
+
+func (e *Env) ckBefore() *CkObs {
+	st0 := e.LS.VerifSyncState()
+	w := ScanWAL(e.DBPath + "-wal")
+	if !w.Exists || w.PageSize == 0 {
+		return nil
+	}
+	fs := int64(24 + w.PageSize)
+	orig := st0.LastSyncedWALOffset
+	if orig == 0 {
+		orig = w.Size
+	}
+	newSz := st0.LastSyncedWALOffset
+	end := int64(32) + int64(w.LastCommit)*fs
+	synced := false
+	if w.LastCommit > 0 && end != st0.LastSyncedWALOffset {
+		newSz = end
+		synced = true
+	}
+	if st0.LastSyncedWALOffset == 0 {
+		return nil // first sync after start: verify decides (snapshot); not a steady-state observation
+	}
+	one := int64(32) + fs
+	return &CkObs{Line: fmt.Sprintf("ck PS=%d MIN=%d TRUNC=%d IVL=0 LS=%d TPF=%d SSC=%d ORIG=%d NEW=%d AGE=0 O1=restarted:%d O2=restarted:%d",
+		w.PageSize, e.Cfg.MinCheckpointPageN, e.Cfg.TruncatePageN, newSz, b2i(st0.TruncatePassiveFailed), b2i(st0.SyncedSinceCheckpoint || synced), orig, newSz, one, one)}
+}
+
+// VerifyObs is one observation of verify: the facts it depends on, gathered
+// independently from the files, and the decision the real code took.
+type VerifyObs struct {
+	Line string
+	Real string
+}
+
+func (e *Env) verifyObs() *VerifyObs { return nil }
